@@ -24,10 +24,17 @@ func vC01(nSess, nSubs, nShapes, nPubShapes, nFilterKinds int, fullOpts bool, fi
 	sess := make([]*vSess, nSess)
 	authid := make([]string, nSess)
 	authrole := make([]string, nSess)
+	attrVal := make([][]string, nSess) // values of the custom session attributes
 	for i := range sess {
 		authid[i] = vStr1("authid")
 		authrole[i] = vStr1("authrole")
-		sess[i] = vNewSess(wamp.ID(11+i), wamp.Dict{"authid": authid[i], "authrole": authrole[i]}, nil, 16)
+		det := wamp.Dict{"authid": authid[i], "authrole": authrole[i]}
+		for _, an := range vAttrNames {
+			av := vStr1("attr." + an)
+			attrVal[i] = append(attrVal[i], av)
+			det[an] = av
+		}
+		sess[i] = vNewSess(wamp.ID(11+i), det, nil, 16)
 	}
 
 	// --- subscriptions through the real SUBSCRIBE path ---
@@ -121,7 +128,8 @@ func vC01(nSess, nSubs, nShapes, nPubShapes, nFilterKinds int, fullOpts bool, fi
 	}
 	// one filter kind per path
 	var blID, wlID wamp.ID
-	var blAuthid, wlAuthrole string
+	var blAuthid, wlAuthrole, blAttr, wlAttr string
+	attrIdx := 0
 	fk := vChoice("filter.kind", nFilterKinds)
 	switch fk {
 	case 1:
@@ -141,6 +149,14 @@ func vC01(nSess, nSubs, nShapes, nPubShapes, nFilterKinds int, fullOpts bool, fi
 		wlAuthrole = vStr1("eligible_authrole")
 		opts["exclude"] = wamp.List{vIDAs("exclude", blID)}
 		opts["eligible_authrole"] = wamp.List{wlAuthrole}
+	case 6: // black list on any other session attribute
+		attrIdx = vChoice("exclude.attr", len(vAttrNames))
+		blAttr = vStr1("exclude.attr.value")
+		opts["exclude_"+vAttrNames[attrIdx]] = wamp.List{blAttr}
+	case 7: // white list on any other session attribute
+		attrIdx = vChoice("eligible.attr", len(vAttrNames))
+		wlAttr = vStr1("eligible.attr.value")
+		opts["eligible_"+vAttrNames[attrIdx]] = wamp.List{wlAttr}
 	}
 	arg := vInt64("arg")
 	msg := &wamp.Publish{Request: 777, Topic: topic.str(), Options: opts, Arguments: wamp.List{arg}, ArgumentsKw: wamp.Dict{"k": arg}}
@@ -164,6 +180,12 @@ func vC01(nSess, nSubs, nShapes, nPubShapes, nFilterKinds int, fullOpts bool, fi
 		}
 		if wlAuthrole != "" {
 			allowed = vAnd(allowed, authrole[i] == wlAuthrole)
+		}
+		if blAttr != "" {
+			allowed = vAnd(allowed, attrVal[i][attrIdx] != blAttr)
+		}
+		if wlAttr != "" {
+			allowed = vAnd(allowed, attrVal[i][attrIdx] == wlAttr)
 		}
 		if i == pubi {
 			allowed = vAnd(allowed, !excludeMe)
@@ -235,9 +257,13 @@ func vC01(nSess, nSubs, nShapes, nPubShapes, nFilterKinds int, fullOpts bool, fi
 func Harness_C01_Match_Quick() { vC01(2, 2, 6, 3, 1, false, false) }
 
 // options: 3 sessions all subscribed to one symbolic topic (+1 prefix subscription), every
+// custom session attributes usable in exclude_<attr> / eligible_<attr> lists (names chosen to
+// overlap with the characters of the option prefixes)
+var vAttrNames = []string{"department", "level", "xyzzy"}
+
 // acknowledge / exclude_me / filter-list combination
-func Harness_C01_Options_Quick() { vC01(3, 0, 0, 2, 6, true, true) }
+func Harness_C01_Options_Quick() { vC01(3, 0, 0, 2, 8, true, true) }
 
 // thorough: 3 sessions, 3 subscriptions
 func Harness_C01_Match_Thorough()   { vC01(3, 3, 6, 3, 1, false, false) }
-func Harness_C01_Options_Thorough() { vC01(3, 2, 3, 3, 6, true, false) }
+func Harness_C01_Options_Thorough() { vC01(3, 2, 3, 3, 8, true, false) }
